@@ -24,6 +24,7 @@ CONSTANTS Lang,          \* one of FusionTable!Langs
           Fixed,         \* TRUE: rule as in the tree; FALSE: rule before fix commit 6a354ae
           Fixed2,        \* TRUE: with the pp-number exponent branch ('0x1e' '+'); FALSE: before that fix
           Fixed3,        \* TRUE: with the number.dot / dot.digit branches and the 4-character second text
+          Fixed4,        \* TRUE: with the D '/+' comment opener and the '<#' placeholder opener
           Emit           \* TRUE: print every pair with its classification (M-gen)
 
 VARIABLES a, b, ang      \* the pair; ang: both chunks are CT_ANGLE_CLOSE
@@ -60,13 +61,15 @@ FirstLen(s) ==
           THEN QuoteEnd(s, e + 2, s[e + 1]) ELSE e
   ELSE IF s[1] = "/" /\ Len(s) > 1 /\ s[2] = "/" THEN Len(s)
   ELSE IF s[1] = "/" /\ Len(s) > 1 /\ s[2] = "*" THEN CmtEnd(s, 3)
+  ELSE IF s[1] = "/" /\ Len(s) > 1 /\ s[2] = "+" /\ Lang = "D" THEN Len(s)        \* D: '/+' opens a nesting comment
+  ELSE IF s[1] = "<" /\ Len(s) > 1 /\ s[2] = "#" THEN Len(s)                      \* '<#' opens an Xcode code placeholder
   ELSE IF s[1] \in {"\"", "'"} THEN QuoteEnd(s, 2, s[1])
   ELSE PunctLen(s)
 Lex(s) == IF s = <<>> THEN <<>>
           ELSE LET n == FirstLen(s) IN <<SubSeq(s, 1, n)>> \o Lex(SubSeq(s, n + 1, Len(s)))
 
 Fuses(x, y) == Lex(x \o y) # <<x, y>>
-IsCmt(t) == Len(t) >= 2 /\ t[1] = "/" /\ t[2] \in {"/", "*"}
+IsCmt(t) == Len(t) >= 2 /\ ((t[1] = "/" /\ t[2] \in {"/", "*"}) \/ (t[1] = "/" /\ t[2] = "+" /\ Lang = "D") \/ (t[1] = "<" /\ t[2] = "#"))
 OpensComment(x, y) == /\ x \notin CmtReps /\ Fuses(x, y)
                       /\ \E k \in 1..Len(Lex(x \o y)) : IsCmt(Lex(x \o y)[k])
 
@@ -84,6 +87,7 @@ Force(x, y, angle) ==
          dig == Fixed /\ y[1] \in DigitChars
      IN IF kw1 /\ (kw2 \/ dig) THEN TRUE
         ELSE IF Fixed /\ Last(x) = "/" /\ y[1] \in {"/", "*"} THEN TRUE
+        ELSE IF Fixed4 /\ ((Last(x) = "/" /\ y[1] = "+" /\ Lang = "D") \/ (Last(x) = "<" /\ y[1] = "#")) THEN TRUE
         ELSE IF Fixed2 /\ IsNum(x) /\ y[1] \in {"+", "-"} /\ Last(x) \in {"e", "E", "p", "P"} THEN TRUE
         ELSE IF Fixed3 /\ y[1] = "." /\ IsNum(x) /\ ~(Lang = "D" /\ y = <<".", ".">>) THEN TRUE
         ELSE IF Fixed3 /\ Last(x) = "." /\ y[1] \in DigitChars /\ (Len(x) = 1 \/ IsNum(x)) THEN TRUE
